@@ -83,7 +83,7 @@ def worker(seed, widx, nworkers, plan, scratch):
     per_worker = (plan["max_runs"] + nworkers - 1) // nworkers
     known = load_known()
     st = {"histories": 0, "histories_skipped_foreign": 0, "runs": 0, "nontrivial": set(), "events": 0,
-          "sim_seconds": 0.0, "faults": {}, "probes": {}, "states": set(), "positions_per_history_max": 0,
+          "sim_seconds": 0.0, "faults": {}, "probes": {}, "states": set(), "max_positions_per_history": 0,
           "double_restart_runs": 0, "jobs_at_restart": {}, "determinism_rechecks": 0}
     samples, known_hits, violation = [], [], None
     i = widx
@@ -100,7 +100,7 @@ def worker(seed, widx, nworkers, plan, scratch):
         st["histories"] += 1
         H, ch = base["steps"], base["choices"]
         hh = stable_hash(H)
-        st["positions_per_history_max"] = max(st["positions_per_history_max"], len(H) + 1)
+        st["max_positions_per_history"] = max(st["max_positions_per_history"], len(H) + 1)
         plans = [([p], "AB"[(p + i) % 2]) for p in range(len(H) + 1)]
         r2 = rng_for(seed, PROP, i, "second")
         if r2.random() < 0.2 and len(H) >= 2:
@@ -175,7 +175,7 @@ def evidence(stats, samples, plan, tier, seed, wall, nviol, known_hits, nworkers
         "exhaustive_scope": "restart position within each sampled history (every i in [0,|H|]); histories are sampled",
         "histories": stats.get("histories", 0),
         "histories_skipped_because_base_run_not_clean": stats.get("histories_skipped_foreign", 0),
-        "max_positions_in_one_history": stats.get("positions_per_history_max", 0),
+        "max_positions_in_one_history": stats.get("max_positions_per_history", 0),
         "double_restart_runs": stats.get("double_restart_runs", 0),
         "runs_per_hour": int(runs / wall * 3600) if wall > 0 else 0,
         "simulated_seconds_total": round(stats.get("sim_seconds", 0.0), 1),
